@@ -49,6 +49,8 @@ var c09RuntimeSigs = []struct {
 	{regexp.MustCompile(`runtime error`), "runtime-other"},
 	{regexp.MustCompile(`reflect: |reflect\.Value|reflect\.`), "reflect"},
 	{regexp.MustCompile(`negative Repeat count|Repeat count causes overflow|strings\.Builder|bytes\.Buffer: |strings: |bytes: `), "stdlib-panic"},
+	// math/big panics with these texts (SetString / Text with a base outside 2..62, Exp / Div misuse)
+	{regexp.MustCompile(`invalid number base|big: |division by zero in big|math/big`), "stdlib-panic"},
 }
 
 // c09FaultKind returns "" when the result is a value or a proper Lisp condition.
@@ -478,6 +480,10 @@ func runC09(c *lib.Ctx) {
 	}
 	if only == "" || strings.Contains(only, "stream") {
 		r.sweepStream()
+	}
+	if only == "" || strings.Contains(only, "stack") {
+		r.sweepStack()
+		r.sweepSharp()
 	}
 	if only == "" || strings.Contains(only, "format") {
 		r.sweepFormat()
@@ -1638,6 +1644,13 @@ func (r *c09Run) replay() {
 			bad = bad || (strings.HasPrefix(rep, "ok must-raise") && res.Status == "V")
 		case strings.HasPrefix(sig, "format-model"):
 			bad = bad || (rep == "ok raise" && res.Status == "V")
+		case strings.HasPrefix(sig, "reader-stack-model"):
+			ops, _ := in["ops"].(string)
+			_, offsets := c09StackText(ops)
+			want, ok := c09StackExpect(rep, offsets)
+			bad = bad || !ok || res.Status != "V" || strings.Trim(res.Text, `"`) != want
+		case strings.HasPrefix(sig, "reader-sharp-model"):
+			bad = bad || (rep == "ok raise" && res.Status == "V") || (strings.HasPrefix(rep, "ok radix") && (res.Status != "V" || res.Text != "(1)"))
 		case strings.HasPrefix(sig, "group-model"):
 			f := strings.Fields(rep)
 			bad = bad || len(f) != 2 || res.Status != "V" || res.Text != "\""+lib.Unhex(f[1])+"\""
